@@ -208,6 +208,9 @@ class C19(Check):
         L = [('pytest', 'pytest route: referencepytest.tagged(config, items) on '
                         'stub items for every structure x {--tagged, '
                         '--istagged} subsets x module-level functions'),
+             ('process', 'real `python module.py <argv>` subprocesses for '
+                         'one-class modules (binds the in-process entry '
+                         'point to the real invocation; exit status)'),
              ('argv0', 'no options: every structure, every trailer'),
              ('argv1', 'one option token'),
              ('argv2', 'two option tokens')]
@@ -222,6 +225,25 @@ class C19(Check):
                              ['--tagged', '--istagged']):
                     for funcs in ([], [['test_f', 1], ['test_g', 0]]):
                         yield {'struct': s, 'pytest': opts, 'funcs': funcs}
+            return
+        if layer == 'process':
+            for sh in class_shapes(True):
+                if len(sh[1]) != 2:
+                    continue
+                st = [{'name': 'TA', 'tag': sh[0], 'base': None,
+                       'methods': sh[1]}]
+                quick_shape = (sh[0], sh[1][0][1], sh[1][1][1]) in (
+                    (0, 1, 0), (1, 0, 0))
+                if tier == 'quick' and not quick_shape:
+                    continue
+                for a in ([], ['-1'], ['--tagged'], ['-v', '-1'], ['-1v'],
+                          ['-0'], ['--tagged', '-f'], ['-q', '--tagged', 'TA'],
+                          ['-1', '-W'], ['-f', '--istagged']):
+                    if tier == 'quick' and a not in (
+                            [], ['-v', '-1'], ['-1v'], ['-0'],
+                            ['--tagged', '-f']):
+                        continue
+                    yield {'struct': st, 'process_argv': a}
             return
         n = int(layer[-1])
         for s in structures(tier):
@@ -316,9 +338,91 @@ class C19(Check):
                        {'kept': [i.ident for i in items], 'printed': printed})
         return R
 
+    def run_process_case(self, case):
+        import os
+        import shutil
+        import subprocess
+        import tempfile
+        from mc import engine
+        R = Res()
+        struct, argv = case['struct'], case['process_argv']
+        c = struct[0]
+        d = tempfile.mkdtemp(prefix='mc_c19_', dir='/var/tmp')
+        try:
+            src = ['from tdda.referencetest import ReferenceTestCase, tag',
+                   'import os',
+                   'LOG = os.path.join(os.path.dirname(os.path.abspath('
+                   '__file__)), "log.txt")']
+            if c['tag']:
+                src.append('@tag')
+            src.append('class TA(ReferenceTestCase):')
+            for (m, t, f) in c['methods']:
+                if t:
+                    src.append('    @tag')
+                src.append('    def %s(self):' % m)
+                src.append('        open(LOG, "a").write("%s\\n")' % m)
+                if f:
+                    src.append('        self.fail("deliberate")')
+            src.append("if __name__ == '__main__':")
+            src.append('    ReferenceTestCase.main()')
+            path = os.path.join(d, 'synthmod.py')
+            with open(path, 'w') as fh:
+                fh.write('\n'.join(src) + '\n')
+            env = dict(os.environ, PYTHONPATH=engine.TDDA_SRC,
+                       PYTHONDONTWRITEBYTECODE='1')
+            p = subprocess.run([sys.executable, path] + argv, cwd=d, env=env,
+                               capture_output=True, text=True, timeout=120)
+            R.ev()
+            logp = os.path.join(d, 'log.txt')
+            ran = open(logp).read().split() if os.path.exists(logp) else []
+        finally:
+            shutil.rmtree(d, ignore_errors=True)
+        flags = [a for a in argv if a.startswith('-')]
+        tagged = any(a in ('-1', '--tagged', '-1v') for a in flags)
+        listing = any(a in ('-0', '--istagged') for a in flags)
+        failfast = '-f' in flags
+        tests = sorted(c['methods'])
+        if listing:
+            want = []
+        else:
+            want = []
+            for (m, t, f) in tests:
+                if tagged and not (t or c['tag']):
+                    continue
+                want.append(m)
+                if f and failfast:
+                    break
+        anyfail = any(f for (m, t, f) in tests if m in want)
+        R.nontrivial = tagged or listing
+        R.out('process:rc%d:ran%d' % (p.returncode, len(ran)))
+        sg = self.sig(flags, 'process')
+        if ran != want:
+            R.viol(sg + ':executed', 'executed-exactly-tagged',
+                   {'argv': argv, 'ran': ran, 'expected': want,
+                    'rc': p.returncode, 'stderr': p.stderr[-300:]})
+        elif want:
+            wantrc = 1 if anyfail else 0
+            if p.returncode != wantrc:
+                R.viol(sg + ':exit-status', 'exit-status-reflects-results',
+                       {'argv': argv, 'rc': p.returncode, 'expected': wantrc,
+                        'stderr': p.stderr[-300:]})
+        else:
+            R.unspec += 1     # exit status of a run that executes no test
+        if listing:
+            names = set(l.strip() for l in p.stdout.split() if l.strip())
+            wantn = set(['__main__.TA']) if (c['tag'] or any(
+                t for (m, t, f) in tests)) else set()
+            if names != wantn:
+                R.viol(sg + ':names', 'list-names-classes',
+                       {'argv': argv, 'printed': sorted(names),
+                        'expected': sorted(wantn)})
+        return R
+
     def run_case(self, case):
         if 'pytest' in case:
             return self.run_pytest_case(case)
+        if 'process_argv' in case:
+            return self.run_process_case(case)
         R = Res()
         struct, argv = case['struct'], case['argv']
         sem = [TOKSEM[t] for t in argv]
